@@ -171,6 +171,7 @@ REGISTRY = {
         "technique": "property-based testing (rapid): generated histories in testing/synctest against a conservation ledger",
         "tests": [
             {"name": "TestC20Metrics", "shards": 8, "shards_thorough": 16},
+            {"name": "TestC20Secs1", "shards": 4, "shards_thorough": 16, "crash_is_violation": True},
         ],
         "require": {"c20:cold-open": 399, "c20:outcome:cancel": 620, "c20:outcome:disconnect": 465, "c20:outcome:ok": 1249, "c20:outcome:refused": 1022, "c20:outcome:reject": 680, "c20:outcome:t3": 949, "c20:outcome:write-error": 411, "c20:role:active": 794, "c20:role:passive": 803},
     },
